@@ -199,7 +199,7 @@ def _collect_all_paths_known_to_pytask(session: Session) -> set[Path]:
         if git_root is not None:
             paths_known_by_git = get_all_files(session.config["root"])
             absolute_paths_known_by_git = [
-                git_root.joinpath(p) for p in paths_known_by_git
+                session.config["root"].joinpath(p) for p in paths_known_by_git
             ]
             known_paths.update(absolute_paths_known_by_git)
             known_paths.add(git_root / ".git")
